@@ -141,13 +141,29 @@ class other_fs_tmpdir:
 class History:
     """Plain, replayable executor of a history; the state machine delegates to it."""
 
-    def __init__(self, pool):
+    def __init__(self, pool, setup=None):
+        setup = setup or {}
         self.pool = [gen.fasta_bytes(p) for p in pool]
         self.dir = new_dir()
         self.path = self.dir / "asm.fa"
         self.fai = self.dir / "asm.fa.fai"
         self.agp = self.dir / "asm.fa.agp"
         self.clock = PAST
+        self.saved_tz = None
+        if setup.get("symlinked"):
+            # the FASTA path is a symbolic link into a data store; rewrites go through the link and change the target
+            store = self.dir / "store"
+            store.mkdir()
+            (store / "asm.v1.fa").write_bytes(b"")
+            self.path.symlink_to(store / "asm.v1.fa")
+            os.utime(self.path, (PAST - 1000, PAST - 1000), follow_symlinks=False)
+        if setup.get("dst_fold"):
+            # local time zone with daylight saving; the history starts a few seconds before clocks go back one hour
+            # (29 Oct 2017 01:00:00 UTC in Central Europe), so local wall-clock time is not monotonic during it
+            self.saved_tz = os.environ.get("TZ", "")
+            os.environ["TZ"] = "CET-1CEST,M3.5.0,M10.5.0/3"
+            time.tzset()
+            self.clock = 1509238800 - int(setup["dst_fold"])
         self.content = None
         self.dirty = False  # a rewrite / deletion happened since the last load
         self.loads = 0
@@ -156,6 +172,13 @@ class History:
 
     def close(self):
         shutil.rmtree(self.dir, ignore_errors=True)
+        if self.saved_tz is not None:
+            if self.saved_tz:
+                os.environ["TZ"] = self.saved_tz
+            else:
+                os.environ.pop("TZ", None)
+            time.tzset()
+            self.saved_tz = None
 
     def stamp(self, p, t):
         os.utime(p, (t, t))
@@ -337,7 +360,7 @@ class History:
 
 
 def body_history(case, rec):
-    h = History(case["pool"])
+    h = History(case["pool"], case.get("setup"))
     try:
         for op in case["ops"]:
             h.apply(op)
@@ -362,10 +385,15 @@ def run_histories(rec, tier, seed_value, shard, nshards, handle):
             self.h = None
             self.case = None
 
-        @initialize(pool=st.lists(cache_fasta(), min_size=2, max_size=4))
-        def setup(self, pool):
-            self.case = {"pool": pool, "ops": []}
-            self.h = History(pool)
+        @initialize(pool=st.lists(cache_fasta(), min_size=2, max_size=4), env=st.sampled_from([0, 0, 0, 1, 2, 3]), fold=st.integers(1, 6))
+        def setup(self, pool, env, fold):
+            setup = {}
+            if env in (1, 3):
+                setup["symlinked"] = True
+            if env in (2, 3):
+                setup["dst_fold"] = fold
+            self.case = {"pool": pool, "ops": [], "setup": setup}
+            self.h = History(pool, setup)
 
         def do(self, op):
             self.case["ops"].append(op)
@@ -412,7 +440,8 @@ def run_histories(rec, tier, seed_value, shard, nshards, handle):
             if self.h is not None:
                 if not rec.shrinking and rec.failure is None:
                     rec.count("auto_loads", self.h.loads)
-                    rec.note(self.case, self.h.nontrivial_loads > 0, {"loads_after_change_with_cache_present"} if self.h.nontrivial_loads else ())
+                rec.note(self.case, self.h.nontrivial_loads > 0, ({"loads_after_change_with_cache_present"} if self.h.nontrivial_loads else set())
+                         | {"fasta_is_symlink" for _ in [0] if self.case["setup"].get("symlinked")} | {"clock_goes_back_one_hour" for _ in [0] if self.case["setup"].get("dst_fold")})
                 self.h.close()
 
     st_settings = settings(max_examples=n, stateful_step_count=25, deadline=None, database=None, report_multiple_bugs=False,
